@@ -2,12 +2,12 @@
 """C07 - comparisons form a consistent total order with number < text < logical (K3).
 
 A 26-value pool (numbers, dates >= 1 Mar 1900, text, logicals, blank).  For one supply route the
-complete relation matrix  rel[a][b][op]  (1 089 ordered pairs x six operators = 6 534 evaluations
+complete relation matrix  rel[a][b][op]  (all ordered pairs of the pool x six operators
 through Parser.parse) is computed once per worker process; every law is then read off the matrix:
 
-  pair laws   (all 1 089 ordered pairs)  all six results are booleans; exactly one of < = > ;
+  pair laws   (all ordered pairs)  all six results are booleans; exactly one of < = > ;
               <= , >= , <> are the derived relations;  a<b  <=>  b>a ;  agreement with the reference key
-  triple laws (all 32 768 ordered triples of the 32 non-blank values, no further evaluation)
+  triple laws (all ordered triples of the non-blank values, no further evaluation)
               transitivity of < and of =
 
 Reference key (independent of hotxlfp): rank 0 numbers and dates by exact value (date = days since
@@ -33,7 +33,8 @@ def D(*a):
 NUMBERS = [-2.5, -1, 0, 0.5, 1, 2, 10, 43789, 43789.25, 2 ** 53, 2 ** 53 + 1, 10 ** 17, 10 ** 17 + 1]
 DATES = [D(1900, 3, 1), D(2000, 2, 29), D(2019, 11, 20), D(2019, 11, 20, 6, 0), D(9999, 12, 31),
          D(2019, 11, 20, 6, 0, 0, 250000), D(2019, 11, 20, 6, 0, 0, 750000)]     # two instants inside one second
-TEXTS = ['', '1', '10', '9', '-1', 'a', 'ab', 'b', 'true', 'Apple', 'apple', 'B']
+TEXTS = ['', '1', '10', '9', '-1', 'a', 'ab', 'b', 'true', 'Apple', 'apple', 'B',
+         '2019-11-20', '2019-11-20 06:00:00', '20 November 2019']      # text that spells a date of the pool is still text
 POOL = NUMBERS + DATES + TEXTS + [True, False, None]
 NONBLANK = [i for i, v in enumerate(POOL) if v is not None]
 
@@ -42,13 +43,15 @@ NONBLANK = [i for i, v in enumerate(POOL) if v is not None]
 # instance of a trivial subclass of its type (numpy.float64, IntEnum, rich-text str ... are such); outcomes must agree
 CHANNELS = 3
 
+_N, _NB = len(POOL), len(NONBLANK)
+_L = len([v for v in POOL if not (isinstance(v, dict) and '$dt' in v)])
 BOUNDS = {
-    'quick': '33 values (13 numbers incl. negative/fractional, two equal to date serials and adjacent integers above 2^53, 5 date(-time)s from '
-             '1900-03-01 to 9999-12-31, 12 texts incl. empty, numeric-looking and mixed-case, TRUE, FALSE, blank) supplied as '
-             'variables: all 1 089 ordered pairs x 6 operators; all 32 768 ordered triples of the 32 non-blank '
-             'values on the computed matrix',
-    'thorough': 'as quick, and the same pool supplied as cell values (1 089 pairs) and as literals (21 literal-able '
-                'values, blank = unset cell: 441 pairs, 8 000 triples)',
+    'quick': '%d values (%d numbers incl. negative/fractional, two equal to date serials and adjacent integers above 2^53, %d date(-time)s from '
+             '1900-03-01 to 9999-12-31 incl. two instants inside one second, %d texts incl. empty, numeric-looking, mixed-case and three that spell '
+             'a date of the pool, TRUE, FALSE, blank) supplied as variables: all %d ordered pairs x 6 operators; all %d ordered triples '
+             'of the %d non-blank values on the computed matrix' % (_N, len(NUMBERS), len(DATES), len(TEXTS), _N * _N, _NB ** 3, _NB),
+    'thorough': 'as quick, and the same pool supplied as cell values (%d pairs) and as literals (%d literal-able '
+                'values, blank = unset cell: %d pairs, %d triples)' % (_N * _N, _L, _L * _L, (_L - 1) ** 3),
 }
 ASSUMPTIONS = [
     'the reference text order is demanded only for pairs where code-point and case-insensitive orders agree; pairs '
